@@ -85,6 +85,7 @@ class State(object):
         self.n_env = 0
         self.globals = {}           # (module, name) -> value   for mutable module globals
         self.n_interf = 0
+        self.frozen_terms = []      # id terms of immutable objects met so far (tuples, namedtuple records)
         self.epochs = {}            # name of a havoc array constant -> number of objects allocated when it was created
 
     def copy(self):
@@ -110,6 +111,7 @@ class State(object):
         s.globals = dict(self.globals)
         s.n_interf = self.n_interf
         s.epochs = dict(self.epochs)
+        s.frozen_terms = list(self.frozen_terms)
         return s
 
     # -- environments ---------------------------------------------------------------------------
